@@ -233,7 +233,78 @@ pub fn run(args: &vrt::Args) {
     out.finish();
 }
 
+/// Free-running race (`{"race":"mix","threads":N,"rounds":R,"ms":T}`): N real, unscheduled
+/// threads, each owning one handle of the same heap text, are released together from a spin
+/// barrier and clone their handle, read the clone, drop it and drop their own handle.  The
+/// hardware interleaves the single accesses, which reaches interleavings inside a
+/// read-modify-write of the count that was split into separate accesses (the SCHED replay
+/// preempts only at yield points, DESIGN §9).  Oracle: the tracking allocator (freed exactly
+/// once after the last handle is gone) and the reads.
+fn race(b: &Value, selftest: &str) -> (Outcome, alloc::Report) {
+    use std::sync::atomic::{AtomicBool, AtomicUsize, Ordering::SeqCst};
+    let n = b.u("threads") as usize;
+    let rounds = b.u("rounds");
+    let t_end = std::time::Instant::now() + std::time::Duration::from_millis(b.u("ms"));
+    let mut o = Outcome { fail: None, step: -1, drift: 0, steps: 0, drift_at: -1, drift_why: String::new(), final_status: String::new() };
+    let mut last = alloc::reset();
+    let mut r = 0u64;
+    while r < rounds && std::time::Instant::now() < t_end {
+        let first: Text = alloc::track(|| CONTENT.parse().expect("valid text"));
+        let mut hs: Vec<Text> = (1..n).map(|_| first.clone()).collect();
+        hs.push(first);
+        let bar = AtomicUsize::new(0);
+        let bad = AtomicBool::new(false);
+        std::thread::scope(|sc| {
+            for (k, h) in hs.drain(..).enumerate() {
+                let (bar, bad) = (&bar, &bad);
+                let forget = selftest == "forget" && k == 0;
+                let jit = ((r / 5u64.pow(k as u32)) % 5) * 4;
+                sc.spawn(move || {
+                    bar.fetch_add(1, SeqCst);
+                    while bar.load(SeqCst) < n {
+                        std::hint::spin_loop();
+                    }
+                    for _ in 0..jit {
+                        std::hint::spin_loop();
+                    }
+                    let c = h.clone();
+                    if c.as_str() != CONTENT {
+                        bad.store(true, SeqCst);
+                    }
+                    drop(c);
+                    if h.as_str() != CONTENT {
+                        bad.store(true, SeqCst);
+                    }
+                    if forget { std::mem::forget(h) } else { drop(h) }
+                });
+            }
+        });
+        r += 1;
+        o.steps = r;
+        last = alloc::reset();
+        let fail: Option<Fail> = if last.double_free > 0 {
+            Some(("C33:double-free".into(), format!("race round {}: the text allocation was freed twice ({last:?})", r - 1)))
+        } else if bad.load(SeqCst) {
+            Some(("C33:use-after-free".into(), format!("race round {}: a live handle no longer reads its text back", r - 1)))
+        } else if last.live > 0 {
+            Some(("C33:leak".into(), format!("race round {}: every handle is dropped but the allocation is still live ({last:?})", r - 1)))
+        } else {
+            None
+        };
+        if fail.is_some() {
+            o.fail = fail;
+            o.step = r as i64 - 1;
+            break;
+        }
+    }
+    o.final_status = format!("race mix x{n}: {r} rounds");
+    (o, last)
+}
+
 fn replay(b: &Value, mut rng: vrt::Rng, selftest: &str) -> (Outcome, alloc::Report) {
+    if b.get("race").is_some() {
+        return race(b, selftest);
+    }
     let n = b.u("threads") as usize;
     let max_clones = b.get("max_clones").and_then(Value::as_u64).unwrap_or(1);
     let max_reads = b.get("max_reads").and_then(Value::as_u64).unwrap_or(1);
